@@ -34,11 +34,31 @@ REJECT = (exc.PacketInvalid, ValueError)
 # generation
 # ---------------------------------------------------------------------------------------
 
+FOCUS_CODES = ["1F09", "30C9", "2309", "000A", "3150", "0418", "0404", "3220", "1FC9", "7FFF", "10E0", "0008", "3EF0",
+               "31DA", "000C", "0005", "2349", "1F41", "313F", "0009"]
+_by_code: dict[str, list] = {}
+
+
 def gen_lines(r, n: int, p_corrupt: float, ascii_only: bool = False, p_schema: float = 0.4) -> list[dict]:
     cor = gen.corpus()["frames"]
+    if not _by_code:
+        for ent in cor:
+            _by_code.setdefault(ent[1][41:45], []).append(ent)
+    # swarm: many runs concentrate on one code, so that related packets (several controllers' sync cycles,
+    # fragments of one schedule, one device's OpenTherm ids ...) meet inside one stream
+    focus = r.choice(FOCUS_CODES) if r.random() < 0.4 else None
     out = []
     while len(out) < n:
-        if r.random() < p_schema:
+        if focus and r.random() < 0.5 and (_by_code.get(focus) or focus in CODES_SCHEMA):
+            if _by_code.get(focus) and r.random() < 0.7:
+                dtm, body = r.choice(_by_code[focus])
+                line, src = (body if body[:3] != "..." else gen.rssi(r) + body[3:]), "corpus"
+            else:
+                f = gen.schema_frame(r, {focus: CODES_SCHEMA[focus]})
+                if f is None:
+                    continue
+                line, src = f"{gen.rssi(r)} {f}", "schema"
+        elif r.random() < p_schema:
             f = gen.schema_frame(r, CODES_SCHEMA)
             if f is None:
                 continue
